@@ -12,7 +12,7 @@ from .model import Obj
 
 class Unsupported(Exception): pass
 class _AllRaised(Exception): pass      # an assignment whose every branch raised (the raise is queued in Exec.raised)
-_BI_IDS = {id(getattr(builtins, n)): n for n in ('id', 'dict', 'hash', 'super', 'isinstance', 'issubclass', 'len', 'iter', 'next', 'getattr', 'bool', 'type', 'callable', 'tuple', 'all', 'any', 'list', 'set', 'sorted', 'sum', 'min', 'max', 'frozenset')}
+_BI_IDS = {id(getattr(builtins, n)): n for n in ('enumerate', 'id', 'dict', 'hash', 'super', 'isinstance', 'issubclass', 'len', 'iter', 'next', 'getattr', 'bool', 'type', 'callable', 'tuple', 'all', 'any', 'list', 'set', 'sorted', 'sum', 'min', 'max', 'frozenset')}
 
 # ---------------------------------------------------------------- values
 class V: pass
@@ -387,6 +387,8 @@ class Exec:
             if idx is not None: s = s.set('__nyield', VInt(self.as_int(idx) + 1))
             outs.append((s, VPy(None)))
         return outs
+    def e_YieldFrom(self, n, st):
+        return [(s.ev('yield_from', v), VObj(M.fresh('yield_from_result'))) for s, v in self.eval(n.value, st)]
     def e_Lambda(self, n, st):
         return [(st, VClosure(n, st.env, None))]
     def e_JoinedStr(self, n, st):
@@ -578,9 +580,14 @@ class Exec:
         ot = self.obj(o); ok = M.inst(ot, self.uni.const(cabc.Sized))
         self.obl(s, 'defined.len', ok, where); s = s.assume(ok)
         return [(s.eff('len', ot), VInt(M.len_(ot)))]
+    def b_enumerate(self, s, args, kw, where):
+        src = args[0]
+        t = self.obj(src)
+        return [(s.eff('enumerate', t).ev('enumerate', t), VObj(z3.Function('enumerate_of', Obj, Obj)(t)))]
     def b_iter(self, s, args, kw, where):
         (o,) = args
         if isinstance(o, VView): return [(s, VIter(o.src, o.kind))]
+        if isinstance(o, VTup): return [(s, VIter(o, 'tuple'))]
         ot = self.obj(o); ok = M.inst(ot, self.uni.const(cabc.Iterable))
         self.obl(s, 'defined.iter', ok, where); s = s.assume(ok)
         return [(s.eff('iter', ot), VIter(o, 'plain'))]
@@ -628,7 +635,7 @@ class Exec:
             s = s._r(cost=s.cost + M.len_(t), effects=s.effects + (('iterate_all', t, where),))
             return [(s, VObj(M.fresh('linres')))] if True else []
         raise Unsupported('linear builtin over ' + type(src).__name__ + ': ' + where)
-    BUILTINS = {'id': b_id, 'super': b_super, 'dict': b_dict, 'hash': b_hash, 'isinstance': b_isinstance, 'issubclass': b_issubclass, 'len': b_len, 'iter': b_iter, 'next': b_next,
+    BUILTINS = {'enumerate': b_enumerate, 'id': b_id, 'super': b_super, 'dict': b_dict, 'hash': b_hash, 'isinstance': b_isinstance, 'issubclass': b_issubclass, 'len': b_len, 'iter': b_iter, 'next': b_next,
                 'getattr': b_getattr, 'bool': b_bool, 'type': b_type, 'callable': b_callable,
                 'all': b_linear, 'any': b_linear, 'tuple': b_linear, 'list': b_linear, 'set': b_linear, 'sorted': b_linear,
                 'sum': b_linear, 'min': b_linear, 'max': b_linear, 'frozenset': b_linear}
